@@ -95,7 +95,17 @@ def job_exact(variant, dim, mode, norm, tier):
         out.append(prove(base + "/lemma: M k == e_0", p.conds + inv + cor0 + L1, z3.And(L2), T, witness_vars=wv, replay=rb, pairwise=False))
         cz = [lift(x) for x in p.out[5]]
         L0 = z3.Sum([cz[i] * lift(M[i, j]) * lift(kv[j, 0]) for i in range(n) for j in range(n)]) == cz[0]
-        out.append(prove(base + "/lemma: z^T M k == z_0 (prepared datum)", p.conds + L2, L0, T, witness_vars=wv, replay=rb, pairwise=False, instantiate=False))
+        # staged: (i) polynomial identity z^T M k == sum_i z_i (M k)_i, (ii) z_i (M k)_i == z_i e_0i from L2, (iii) a generic linear
+        # lemma on fresh symbols whose instance gives L0
+        total = z3.Sum([cz[i] * lift(M[i, j]) * lift(kv[j, 0]) for i in range(n) for j in range(n)])
+        parts = [cz[i] * Mk[i] for i in range(n)]
+        out.append(prove(base + "/lemma: z^T M k == sum_i z_i (M k)_i (polynomial identity)", [], total == z3.Sum(parts), T, witness_vars=wv, replay=rb, instantiate=False, vacuity=False))
+        for i in range(n):
+            out.append(prove(base + f"/lemma: z_{i} (M k)_{i} == z_{i} e_0{i}", [L2[i]], parts[i] == (cz[i] if i == 0 else 0), T, witness_vars=wv, replay=rb, instantiate=False, vacuity=False))
+        gX = z3.Real("lem_X")
+        gt = [z3.Real(f"lem_t{i}") for i in range(n)]
+        gc = z3.Real("lem_c")
+        out.append(prove(base + "/lemma: X == sum t_i, t_0 == c, t_i == 0 (i>0) => X == c  (instance: z^T M k == z_0, the prepared datum)", [gX == z3.Sum(gt), gt[0] == gc] + [gt[i] == 0 for i in range(1, n)], gX == gc, T, witness_vars={}, replay=rb, instantiate=False, vacuity=False))
         out.append(prove(base + "/estimate at a conditioning location == datum", p.conds + cor0, lift(fld[0]) == sy["cval"][0].e, T, witness_vars=wv, replay=rb, pairwise=(norm != "none" or variant == "general"), extra=[L0], note="uses the lemma z^T M k == z_0"))
         qf = z3.Sum([lift(kv[i, 0]) * Mk[i] for i in range(n)])
         L3 = [qf == lift(kv[0, 0]), lift(kv[0, 0]) == sy["var"].e + lift(sy["nug"])]
@@ -176,7 +186,24 @@ def job_variance(variant, ncond, tier):
                 k1, k2 = lift(kv[0, 0]), lift(kv[1, 0])
                 qf = z3.Sum([lift(kv[i, 0]) * lift(M[i, j]) * lift(kv[j, 0]) for i in range(2) for j in range(2)])
                 H1 = [qf * det == d_ * k1 * k1 - (b + c_) * k1 * k2 + a * k2 * k2]
-                out.append(prove(base + "/lemma: k^T M k * det == quadratic form of the adjugate", p.conds + nons + expl, z3.And(H1), T, witness_vars=wv, replay=rb, pairwise=False))
+                # staged with an explicit certificate: qf det - Q = sum_ij k_i k_j (M_ij det - adj_ij)  (a polynomial identity),
+                # every summand vanishes by the previous lemma
+                adj = [[d_, -b], [-c_, a]]
+                kk = [k1, k2]
+                E = [[lift(M[i, j]) * det - adj[i][j] for j in range(2)] for i in range(2)]
+                Tm = [[kk[i] * kk[j] * E[i][j] for j in range(2)] for i in range(2)]
+                Qe_ = d_ * k1 * k1 - (b + c_) * k1 * k2 + a * k2 * k2
+                cert = qf * det - Qe_ == Tm[0][0] + Tm[0][1] + Tm[1][0] + Tm[1][1]
+                out.append(prove(base + "/lemma: certificate qf det - Q == sum k_i k_j (M_ij det - adj_ij) (polynomial identity)", [], cert, T, witness_vars=wv, replay=rb, instantiate=False, vacuity=False))
+                zeros = []
+                for i in range(2):
+                    for j in range(2):
+                        zeros.append(Tm[i][j] == 0)
+                        out.append(prove(base + f"/lemma: k_{i} k_{j} (M_{i}{j} det - adj_{i}{j}) == 0", [E[i][j] == 0], Tm[i][j] == 0, T, witness_vars=wv, replay=rb, instantiate=False, vacuity=False))
+                out.append(prove(base + "/lemma: M_ij det - adj_ij == 0", expl, z3.And([E[i][j] == 0 for i in range(2) for j in range(2)]), T, witness_vars=wv, replay=rb, instantiate=False, vacuity=False))
+                # last step as a generic linear lemma on fresh symbols; H1 is its instance X := qf det, Q := adjugate form, t_ij := the summands
+                gX, gQ, g0, g1, g2, g3 = z3.Reals("lem_X lem_Qf lem_t00 lem_t01 lem_t10 lem_t11")
+                out.append(prove(base + "/lemma: X - Q == t00+t01+t10+t11, t_ij == 0 => X == Q  (instance: k^T M k * det == quadratic form of the adjugate)", [gX - gQ == g0 + g1 + g2 + g3, g0 == 0, g1 == 0, g2 == 0, g3 == 0], gX == gQ, T, witness_vars={}, replay=rb, instantiate=False, vacuity=False))
                 H2 = [d_ * k1 * k1 - (b + c_) * k1 * k2 + a * k2 * k2 >= 0]
                 out.append(prove(base + "/lemma: adjugate quadratic form >= 0 (|off-diagonal| <= diagonal)", p.conds + facts, z3.And(H2), T, witness_vars=wv, replay=rb, pairwise=False))
                 # generic real-arithmetic lemma on fresh symbols, then used as an instance
